@@ -189,6 +189,10 @@ impl Params {
                 .map(|started| started.elapsed().as_millis() as usize)
                 .unwrap_or(0)
         };
+#[cfg(feature = "verif-hooks")]
+let elapsed_ms = nervusdb_storage::verif::elapsed_ms()
+    .map(|v| v as usize)
+    .unwrap_or(elapsed_ms);
         let timeout_ms = timeout_ms as usize;
         if elapsed_ms > timeout_ms {
             return Err(Error::resource_limit_exceeded(
